@@ -527,14 +527,6 @@ func (r *mwRun) vacuumStep(s MWStep, where string) error {
 			r.o.Exclude("garbage-check-after-interrupted-vacuum")
 			garbage = nil
 		}
-		if len(garbage) > 0 && r.hadRetireFault && !r.c.NoSteerK8 {
-			// K8: after a version was merged together with its own ancestor (which only happens
-			// when a retirement failed), the link diff between the merge version and its purged
-			// successor misses a subtree; a few node objects stay behind (storage leak, no data
-			// lost). Counted, witnessed, not repaired (see known_findings.json).
-			r.o.Exclude("K8-garbage-after-ancestor-merged-as-sibling")
-			garbage = nil
-		}
 		if len(garbage) > 0 {
 			sort.Strings(garbage)
 			return fmt.Errorf("%s: %d node object(s) that only deleted versions needed are still in the bucket: %v", where, len(garbage), garbage[:min(3, len(garbage))])
